@@ -161,5 +161,7 @@ impl<R: Read> ReadStr for R {}
 
 /*@include units/tags/proto.rs @*/
 
+/*@include units/tags/assoc.rs @*/
+
 } // verus!
 fn main() {}
